@@ -124,7 +124,7 @@ ADDENDA = {
  'C03': ' One request in eight comes from the boundary generator of C05 (refused requests must change nothing either); a TCP engine runs the same histories against enip.main.main() with generated command lines.',
  'C04': ' Fill values keep extreme anchors extreme at every index (ULINT >= 2**63, LINT near its minimum).',
  'C05': ' Set Attribute Single payloads with 1..size-1 stray or missing bytes.',
- 'C06': ' A quarter of the shards run against --size N (over-size requests: one reply with a non-zero encapsulation status) and a quarter against --route-path; bundle members address other objects and are judged member by member; a client-context clause drives the library client collect() with arbitrary sender contexts.',
+ 'C06': ' A quarter of the shards run against --size N (over-size requests: one reply with a non-zero encapsulation status) and a quarter against --route-path; bundle members address other objects and are judged member by member; a client-context clause drives the library client collect() with arbitrary sender contexts; Forward Open / Large Forward Open / Forward Close in the sequences; a positive test that Unregister ends the session; a routed clause (router rig: second simulator behind the stalling relay, DESIGN 9.7).',
  'C07': ' Client clause also spells attribute services as generic service-code operations; bundles of 255/256/257/300 small members.',
  'C08': ' TCP clause: a session aborted with RST followed by a new session from the same source port; bursts of connections reset before accept; a write request cut at every byte offset followed by end-of-stream.',
  'C09': ' Register Session is issued under the schedule too (dedicated sweep scenario and one in four drawn cases); both engines require pairwise distinct session handles of simultaneously open sessions.',
